@@ -590,6 +590,38 @@ class CountList:
         return []
 
 
+class MapList:
+    """MapF(l, params...) = [F(x, params) for x in l], defined by recursion from the END of the list; length(MapF(l)) == length(l) and
+    nth(MapF(l), k) == F(nth(l, k)) (induction on l) are instantiated on the terms of each query."""
+    _made = {}
+
+    def __init__(self, name, elem, param_sorts=()):
+        self.name, self.elem, self.param_sorts = 'Map_' + name, elem, tuple(param_sorts)
+        l = z3.Const('ml_', VL)
+        ps = [z3.Const(f'mlp{i}_', srt) for i, srt in enumerate(self.param_sorts)]
+        self.fn = z3.RecFunction(self.name, VL, *self.param_sorts, VL)
+        z3.RecAddDefinition(self.fn, [l] + ps, self._body(l, *ps))
+        UNFOLD[self.name] = self._body
+        LEMMA_HOOKS.append(self._hook)
+        MapList._made[self.name] = self
+
+    def _body(self, l, *ps):
+        n = length(l)
+        return z3.If(n <= 0, VL.nil, app(self.fn(take(l, n - 1), *ps), VL.cons(self.elem(nth(l, n - 1), *ps), VL.nil)))
+
+    def __call__(self, l, *ps):
+        return self.fn(l, *ps)
+
+    def _hook(self, e, n):
+        if n == self.name:
+            return [length(e) == length(e.arg(0))]
+        if n == 'nth' and z3.is_app(e.arg(0)) and e.arg(0).decl().name() == self.name:
+            m, k = e.arg(0), e.arg(1)
+            ps = [m.arg(i) for i in range(1, m.num_args())]
+            return [z3.Implies(z3.And(k >= 0, k < length(m.arg(0))), e == self.elem(nth(m.arg(0), k), *ps))]
+        return []
+
+
 # elimination instances for nth terms: generated per query for the All_* facts present
 def forall_elim_facts(exprs):
     alls = collect_apps(exprs, set(ForallList._made))
